@@ -1194,6 +1194,9 @@ def _sun_parameters(U, rtol=1e-12, atol=1e-12):
 
     staircase_transformation, new_U = _build_staircase(U, rtol, atol)
     Unm1 = new_U[1:, 1:]
+    # new_U[0, 0] equals 1 only within the tolerances, so the determinant of the remaining block
+    # can deviate from 1 by more than the SU(2) factorisation accepts; remove that residual phase
+    Unm1 = Unm1 * complex(np.linalg.det(Unm1)) ** (-1 / len(Unm1))
     return staircase_transformation + _sun_parameters(Unm1, rtol, atol)
 
 
